@@ -1,4 +1,4 @@
-package main
+package c15lib
 
 import (
 	"context"
@@ -55,20 +55,47 @@ func (t *tapeReader) Read(p []byte) (int, error) {
 
 var realReader = crand.Reader
 
-func withTape(words []uint32, d uint32, f func()) *tapeReader {
-	t := &tapeReader{words: words, d: d, last: new(big.Int)}
-	crand.Reader = t
-	defer func() { crand.Reader = realReader }()
+// switchReader is installed as crypto/rand.Reader once, before any goroutine runs: it reads from the scripted
+// tape of the current draw / sample / round, and from the real generator otherwise.  (Replacing the variable
+// crand.Reader around every round would race with client goroutines that are still reading it.)
+type switchReader struct {
+	mu  sync.Mutex
+	cur *tapeReader
+}
+
+func (s *switchReader) Read(p []byte) (int, error) {
+	s.mu.Lock()
+	t := s.cur
+	s.mu.Unlock()
+	if t == nil {
+		return realReader.Read(p)
+	}
+	return t.Read(p)
+}
+
+var theSwitch = &switchReader{}
+
+func installTape() { crand.Reader = theSwitch }
+
+func runWith(t *tapeReader, f func()) *tapeReader {
+	theSwitch.mu.Lock()
+	theSwitch.cur = t
+	theSwitch.mu.Unlock()
+	defer func() {
+		theSwitch.mu.Lock()
+		theSwitch.cur = nil
+		theSwitch.mu.Unlock()
+	}()
 	f()
 	return t
 }
 
+func withTape(words []uint32, d uint32, f func()) *tapeReader {
+	return runWith(&tapeReader{words: words, d: d, last: new(big.Int)}, f)
+}
+
 func withTape4(words []uint32, d uint32, f func()) *tapeReader {
-	t := &tapeReader{words: words, d: d, last: new(big.Int), only4: true}
-	crand.Reader = t
-	defer func() { crand.Reader = realReader }()
-	f()
-	return t
+	return runWith(&tapeReader{words: words, d: d, last: new(big.Int), only4: true}, f)
 }
 
 func wordsStr(ws []uint32) string {
